@@ -203,6 +203,8 @@ func initArrayList() {
 
 				if value.Truthy(isEqual) {
 					self.RemoveAt(i)
+					// the next element has moved into this slot
+					i--
 					removed = true
 				}
 			}
@@ -216,7 +218,10 @@ func initArrayList() {
 		"remove_at",
 		func(vm *Thread, args []value.Value) (value.Value, value.Value) {
 			self := args[0].AsReference().(value.ArrayList)
-			val := args[1].AsInt()
+			val, ok := value.ToGoInt(args[1])
+			if !ok {
+				return value.Undefined, value.Ref(value.NewIndexOutOfRangeError(args[1].Inspect(), self.Length()))
+			}
 			return value.Nil, self.RemoveAtErr(val)
 		},
 		DefWithParameters(1),
